@@ -96,6 +96,12 @@ ROLES = {
     "acute": (0x301, lambda: [0x301, 0x300, 0x302, 0x303, 0x308]),
     "cedil": (0x327, lambda: [0x327, 0x328, 0x323]),
     "NBSP": (0xA0, lambda: [0xA0]),
+    "micro": (0xB5, lambda: [0xB5]),                      # Latin-1 compatibility characters (below U+00C0)
+    "sup2": (0xB2, lambda: [0xB2, 0xB3, 0xB9]),
+    "ordm": (0xBA, lambda: [0xBA, 0xAA]),
+    "mu": (0x3BC, lambda: [0x3BC]),
+    "two": (0x32, lambda: [0x32]),
+    "o": (0x6F, lambda: [0x6F]),
     "diaer": (0xA8, lambda: [0xA8, 0xAF, 0xB4, 0xB8, 0x2D8, 0x2D9, 0x2DA]),
     "mdot": (0xB7, lambda: [0xB7]),
     "heb": (0x5D0, lambda: _pool(lambda c: _pv(c) and db()["bidi"][c] == "R" and db()["script"].get(c) == "Hebrew", 0x5D0, 0x5EA)),
@@ -186,7 +192,7 @@ def _attr_tla(c):
                 c["bidi"], c["ccc"], _tla_seq(c["cdec"]), _tla_seq(c["kdec"])))
 
 
-def generate(roles, instance=0, seed=1, extra_cps=(), tag="u"):
+def generate(roles, instance=0, seed=1, extra_cps=(), tag="u", sigma=None):
     """returns (path of generated MiniUnicode.tla, role->cp, closure info)"""
     chosen = choose(roles, instance, seed)
     cps = sorted(set(chosen.values()) | set(extra_cps))
@@ -206,7 +212,7 @@ def generate(roles, instance=0, seed=1, extra_cps=(), tag="u"):
     else:
         lines.append("MComp == [x \\in {} |-> 0]")
     lines.append('MiniW == [mode |-> "algo", u |-> MU, comp |-> MComp, facts |-> <<>>, dev |-> {}]')
-    lines.append("SigmaIn == {%s}" % ", ".join(str(chosen[r]) for r in roles))
+    lines.append("SigmaIn == {%s}" % ", ".join(str(chosen[r]) for r in (sigma or roles)))
     lines.append("SigmaAll == DOMAIN MU")
     lines.append("Role == [%s]" % ", ".join("%s |-> %d" % (r, chosen[r]) for r in roles))
     lines.append("=============================================================================")
